@@ -20,7 +20,7 @@ def judge(cases):
 
 
 def run(ctx):
-    n = 120 if ctx.tier == "quick" else 4000
+    n = 120 if ctx.tier == "quick" else 1500
     res = c01.run_mode(ctx, MODE, n, PID, collide=True)
     res["spec_violations"] = [v for v in res["spec_violations"] if v["kind"] not in IGNORED]
     return res
